@@ -1,7 +1,10 @@
 package system
 
 import (
+	"crypto/tls"
 	"fmt"
+	"io"
+	"net"
 	"strings"
 	"sync"
 	"testing"
@@ -84,11 +87,13 @@ func c07Conf(version string, p []int, hv c07Hold) *sys.DataConf {
 		hsc.Backends = append(hsc.Backends, sys.BackendSpec{Name: "hdead", Addr: "127.0.0.1", Port: 2, Weight: 10})
 	}
 	hl.Sub = []sys.SubCluster{hsc}
-	return sys.SimpleConf(version, []sys.Cluster{cl, fl, hl}, []sys.Rule{
+	d := sys.SimpleConf(version, []sys.Cluster{cl, fl, hl}, []sys.Rule{
 		{Cond: `req_path_prefix_in("/c07h/", false)`, Cluster: "chold"},
 		{Cond: `req_path_prefix_in("/c07f/", false)`, Cluster: "cflap"},
 		{Cond: `default_t()`, Cluster: "c"},
 	})
+	d.DefaultProduct = "p" // TLS stream connections carry no host
+	return d
 }
 
 // balancerCounts reads ConnNum of the backend objects the balancer of a cluster currently
@@ -115,9 +120,9 @@ func balancerCounts(w *world, cluster string) (map[int]int, string) {
 }
 
 func TestC07(t *testing.T) {
-	rec := ev.New("C07", "requests through an in-process BFE whose cluster mixes live harness backends and refused ports (RetryMax 2, retry-GET); per request a generated per-arrival backend fault script (close before response, header timeout, half response, good) and a generated module verdict (Finish at HandleForward, Response/Redirect/Close/Finish at request points, Finish/Redirect at HandleReadResponse, Finish at HandleRequestFinish); plus batches of 2..6 concurrent requests held inside backends. Oracle: ConnNum() of every backend the balancer ever returned is never negative, equals the number of held requests while they are inside a backend exchange, and is 0 at quiescence. non-trivial: >=1 retry, or a forward-phase Finish, or a held batch; distinct by script")
+	rec := ev.New("C07", "requests through an in-process BFE whose cluster mixes live harness backends and refused ports (RetryMax 2, retry-GET); per request a generated per-arrival backend fault script (close before response, header timeout, half response, good) and a generated module verdict (Finish at HandleForward, Response/Redirect/Close/Finish at request points, Finish/Redirect at HandleReadResponse, Finish at HandleRequestFinish); plus batches of 2..6 concurrent requests held inside backends (optionally overlapped by backend-table reloads), a backend flapping through the health state machine while a request is held, and 1..3 WebSocket (http/https) or TLS-stream tunnels held open. Oracle: ConnNum() of every backend the balancer ever returned is never negative, equals the number of held requests while they are inside a backend exchange, and is 0 at quiescence. non-trivial: >=1 retry, or a forward-phase Finish, or a held batch; distinct by script")
 	var ports []int
-	w := startWorld(t, 4, sys.Options{AfterInit: installFilters}, func(p []int) *sys.DataConf {
+	w := startWorld(t, 4, sys.Options{AfterInit: installFilters, NextProtos: []string{"stream", "http/1.1"}}, func(p []int) *sys.DataConf {
 		ports = p
 		return c07Conf("v0", p, c07Hold{})
 	})
@@ -125,7 +130,7 @@ func TestC07(t *testing.T) {
 	var holdVar c07Hold // current generated state of chold's backend table
 	rapid.Check(t, func(rt *rapid.T) {
 		n++
-		mode := rapid.SampledFrom([]string{"single", "single", "single", "single", "single", "batch", "batch", "flap"}).Draw(rt, "mode")
+		mode := rapid.SampledFrom([]string{"single", "single", "single", "single", "single", "batch", "batch", "flap", "tunnel"}).Draw(rt, "mode")
 		if mode == "flap" {
 			// a request is held inside the backend while other requests' failures take the
 			// backend out of rotation and the health checker brings it back
@@ -206,6 +211,117 @@ func TestC07(t *testing.T) {
 			wit["conn_nums_after"] = detail
 			if min < 0 || sum != 0 {
 				rec.Fail(rt, "nonzero-after-flap", wit, "after the held request finished: %s", detail)
+			}
+			return
+		}
+		if mode == "tunnel" {
+			// WebSocket upgrades (http/https) and TLS-offload stream connections take their backend
+			// from the same balancer through their own connect loops (bfe_websocket, bfe_stream):
+			// 1..3 tunnels are opened towards cluster c (which also has a refused member), held
+			// inside the backend, counted, released
+			k := rapid.IntRange(1, 3).Draw(rt, "tunnels")
+			var kinds []string
+			for i := 0; i < k; i++ {
+				kinds = append(kinds, rapid.SampledFrom([]string{"ws", "wss", "stream"}).Draw(rt, "tunnel-kind"))
+			}
+			rec.Case(fmt.Sprintf("tunnel%v|%d", kinds, n), true, "tunnel")
+			rec.Sample(map[string]any{"mode": "tunnel", "kinds": kinds})
+			w.mu.Lock()
+			w.holdCh = make(chan struct{})
+			hold := w.holdCh
+			w.mu.Unlock()
+			var conns []net.Conn
+			var targets []string
+			for i, kind := range kinds {
+				tg := fmt.Sprintf("/c07/%d/t%d", n, i)
+				targets = append(targets, tg)
+				w.setScript(tg, &respScript{Fault: "hold"})
+				var c net.Conn
+				var err error
+				switch kind {
+				case "ws":
+					c, err = w.rig.Dial()
+				case "wss":
+					c, err = sys.DialTLS(w.rig.HTTPSAddr, []string{"http/1.1"}, tls.VersionTLS12, tls.VersionTLS12)
+				default:
+					c, err = sys.DialTLS(w.rig.HTTPSAddr, []string{"stream"}, tls.VersionTLS12, tls.VersionTLS12)
+				}
+				if err != nil {
+					rt.Fatalf("rig: dial %s: %v", kind, err)
+				}
+				conns = append(conns, c)
+				if kind == "stream" {
+					// opaque bytes for BFE; our backend happens to speak HTTP
+					fmt.Fprintf(c, "GET %s HTTP/1.1\r\nHost: example.org\r\n\r\n", tg)
+				} else {
+					fmt.Fprintf(c, "GET %s HTTP/1.1\r\nHost: example.org\r\nUpgrade: websocket\r\nConnection: Upgrade\r\nSec-WebSocket-Key: dGhlIHNhbXBsZSBub25jZQ==\r\nSec-WebSocket-Version: 13\r\n\r\n", tg)
+				}
+			}
+			closeAll := func() {
+				close(hold)
+				for _, c := range conns {
+					c.SetReadDeadline(time.Now().Add(5 * time.Second))
+					io.Copy(io.Discard, c)
+					c.Close()
+				}
+				for _, tg := range targets {
+					w.forget(tg)
+				}
+			}
+			deadline := time.Now().Add(10 * time.Second)
+			heldAt := map[int]int{}
+			for {
+				in := 0
+				heldAt = map[int]int{}
+				for _, tg := range targets {
+					for _, sr := range w.seenFor(tg) {
+						in++
+						for i, b := range w.backends {
+							if b.Name == sr.Backend {
+								heldAt[ports[i]]++
+							}
+						}
+					}
+				}
+				if in >= k {
+					break
+				}
+				if time.Now().After(deadline) {
+					closeAll()
+					rec.Class("tunnel-inconclusive")
+					return
+				}
+				time.Sleep(time.Millisecond)
+			}
+			balCnt, balDetail := balancerCounts(w, "c")
+			wit := map[string]any{"mode": "tunnel", "kinds": kinds, "held_at_port": fmt.Sprint(heldAt), "balancer_conn_nums_while_open": balDetail}
+			closeAll()
+			for _, port := range ports[:3] {
+				if balCnt[port] != heldAt[port] {
+					if !rec.Fail(rt, "tunnel-count-mismatch", wit, "backend on port %d carries %d open tunnels but its count is %d (%s)", port, heldAt[port], balCnt[port], balDetail) {
+						return
+					}
+				}
+			}
+			deadline = time.Now().Add(8 * time.Second)
+			for {
+				balCnt, balDetail = balancerCounts(w, "c")
+				bad := false
+				for _, v := range balCnt {
+					bad = bad || v != 0
+				}
+				if !bad {
+					break
+				}
+				if time.Now().After(deadline) {
+					wit["balancer_conn_nums_after"] = balDetail
+					rec.Fail(rt, "tunnel-nonzero-at-quiescence", wit, "all tunnels are closed but the counts are %s", balDetail)
+					return
+				}
+				time.Sleep(2 * time.Millisecond)
+			}
+			for _, b := range w.backends {
+				b.Reset()
 			}
 			return
 		}
